@@ -12,6 +12,7 @@
 
 #include "../num_traits/from_rep.h"
 #include "../num_traits/to_rep.h"
+#include "../numbers/signedness.h"
 #include "definition.h"
 #include "rep_of.h"
 #include "tag_of.h"
@@ -151,11 +152,23 @@ namespace cnl {
                 return x;
             }
 
+            // floored <= Exponent, compared by value:
+            // converted to an unsigned Rep, a negative Exponent would become a large positive number
+            template<int Exponent, typename Rep>
+            [[nodiscard]] constexpr auto not_above_exponent(Rep const& floored)
+            {
+                if constexpr (Exponent < 0 && !numbers::signedness_v<Rep>) {
+                    return false;
+                } else {
+                    return floored <= Exponent;
+                }
+            }
+
             template<class Intermediate, typename Rep, int Exponent>
             [[nodiscard]] constexpr auto exp2(
                     scaled_integer<Rep, power<Exponent>> const& x, Rep const& floored)
             {
-                return floored <= Exponent
+                return not_above_exponent<Exponent>(floored)
                              ? rep_of_t<Intermediate>{1}  // return immediately if the shift would
                              // result in all bits being shifted out
                              // Do the shifts manually. Once the branch with shift operators is
